@@ -195,7 +195,7 @@ structure Meta where
   vars : List Var
   deriving DecidableEq, Repr
 
-inductive Err | xmlContext | value | parser | index
+inductive Err | xmlContext | value | parser | index | runtime
   deriving DecidableEq, Repr
 
 /-- **Specification** of `XmlMetaBuilder.build(clazz, parent_namespace)`:
